@@ -61,6 +61,23 @@ pub fn compare(cx: &mut CaseCtx, p: &Program, report: &Report, texts: &[String])
         if rs == ["R-NAME-ENUMERATOR-FIELD"] && cx.tolerate_known("F-04") {
             return Ok(());
         }
+        // F-04b: the attributes of an enum's underlying type and of an interface's bases are never validated
+        let unseen_reference = |v: &crate::rules::Violation| {
+            matches!(v.rule, "R-ATTR-TARGET" | "R-ATTR-REPEATED") && (v.at.contains("/underlying/attr") || v.at.contains("/base"))
+        };
+        if report.violations.iter().filter(|v| !DONT_CARE.contains(&v.rule)).all(unseen_reference) {
+            if cx.tolerate_known("F-04b") {
+                cx.label("known:F-04b");
+                return Ok(());
+            }
+            fail!(
+                format!("accept-mismatch/unvalidated-type-reference/rule={}", rs.join("+")),
+                "the program violates {:?} on the type reference of an underlying type / a base but was accepted\n violations: {:?}\n--- source ---\n{}",
+                rs,
+                report.violations,
+                src()
+            );
+        }
         fail!(
             format!("accept-mismatch/rule={}", rs.join("+")),
             "the program violates {:?} but was accepted without an error diagnostic\n violations: {:?}\n--- source ---\n{}",
@@ -623,8 +640,8 @@ fn attrs_program(mut idx: u64) -> Program {
     ];
     let (d, args) = ATTRS[(idx % 17) as usize];
     idx /= 17;
-    let target = (idx % 23) as usize;
-    idx /= 23;
+    let target = (idx % 25) as usize;
+    idx /= 25;
     let twice = idx % 2 == 1;
     let mut attrs = vec![AttrM::new(d, args)];
     if twice {
@@ -729,6 +746,29 @@ fn attrs_program(mut idx: u64) -> Program {
             pre: pre(t == 12),
             name: "C".into(),
         }),
+        // the type references written as an enum's underlying type and as an interface's base
+        DefM::Enum(EnumM {
+            pre: pre(false),
+            compact: false,
+            unchecked: false,
+            name: "Backed".into(),
+            underlying: Some(TypeM {
+                attrs: if t == 23 { attrs.clone() } else { vec![] },
+                kind: TypeK::Prim("uint8".into()),
+                optional: false,
+            }),
+            enumerators: vec![EnumeratorM { pre: pre(false), name: "B".into(), fields: None, value: None, effective: 0 }],
+        }),
+        DefM::Interface(InterfaceM {
+            pre: pre(false),
+            name: "Derived".into(),
+            bases: vec![TypeM {
+                attrs: if t == 24 { attrs.clone() } else { vec![] },
+                kind: TypeK::Named("I".into()),
+                optional: false,
+            }],
+            ops: vec![],
+        }),
         DefM::Alias(AliasM {
             pre: pre(t == 13),
             name: "T".into(),
@@ -763,7 +803,7 @@ fn attrs_program(mut idx: u64) -> Program {
     p
 }
 
-const ATTRS_TOTAL: u64 = 17 * 23 * 2;
+const ATTRS_TOTAL: u64 = 17 * 25 * 2;
 
 fn enumerated(cx: &mut CaseCtx, input: Input, build: fn(u64) -> Program, label: &'static str) -> CaseResult {
     let mut p = build(input.index());
@@ -781,13 +821,12 @@ impl Check for C04 {
         "C04"
     }
     fn rule(&self) -> String {
-        format!("families: injected = proptest choice sequences -> well-formed program with 0..3 violations injected from a {}-entry catalogue at boundary values (the reference checker recomputes the violated rule set from the mutated model); tags3 / streams / enums / keys / attributes = bounded-exhaustive small-scope families (every tag-optional-compact assignment over <= 3 members in four hosts; every stream x tag placement over <= 3 members; every enum modifier x underlying x emptiness x fields x value shape; every key leaf x wrapping depth <= 2 x alias x 8 positions incl. enumerator fields, parameters and return members; every attribute x 23 targets (declarations and the types written in them, incl. enumerator fields and element types; a module-less file holding only the attribute; operations with a streamed return value / parameter) x repetition). Oracle both ways: well-formed <=> no error; every reported error code belongs to a violated rule. Non-trivial = ill-formed, or >= 2 rule-relevant features; distinct by hash of the abstract program", CATALOGUE.len())
+        format!("families: injected = proptest choice sequences -> well-formed program with 0..3 violations injected from a {}-entry catalogue at boundary values (the reference checker recomputes the violated rule set from the mutated model); tags3 / streams / enums / keys / attributes = bounded-exhaustive small-scope families (every tag-optional-compact assignment over <= 3 members in four hosts; every stream x tag placement over <= 3 members; every enum modifier x underlying x emptiness x fields x value shape; every key leaf x wrapping depth <= 2 x alias x 8 positions incl. enumerator fields, parameters and return members; every attribute x 25 targets (declarations and the types written in them, incl. enumerator fields, element types, an enum's underlying type and an interface's base; a module-less file holding only the attribute; operations with a streamed return value / parameter) x repetition). Oracle both ways: well-formed <=> no error; every reported error code belongs to a violated rule. Non-trivial = ill-formed, or >= 2 rule-relevant features; distinct by hash of the abstract program", CATALOGUE.len())
     }
     fn assumptions(&self) -> Vec<String> {
         vec![
             "which of several simultaneous violations is reported is not asserted (the compiler gates its phases)".into(),
             "an empty field list `A()` under an underlying type is a don't-care".into(),
-            "attributes on enum underlying types and interface bases are only checked for unknown directives (the compiler never shows those references to its validators; the statement does not name these positions)".into(),
             "programs in which a module and a definition collide in the name table are not judged (F-15, C15)".into(),
         ]
     }
